@@ -6,4 +6,21 @@ namespace Model
 @[simp] theorem py_bind_ok (a : α) (f : α → Py β) : (Except.ok a : Py α) >>= f = f a := rfl
 @[simp] theorem py_bind_error (e : Exc) (f : α → Py β) : (Except.error e : Py α) >>= f = .error e := rfl
 
+theorem packLE16_nat (k : Nat) (h : k < 65536) : packLE16 (k : Int) = .ok (Spec.le16 k) := by
+  show (if k < 65536 then pure (Spec.le16 k) else throw .structError : Py (List Nat)) = _
+  rw [if_pos h]; rfl
+
+theorem packLE32_nat (k : Nat) (h : k < 4294967296) : packLE32 (k : Int) = .ok (Spec.le32 k) := by
+  show (if k < 4294967296 then pure (Spec.le32 k) else throw .structError : Py (List Nat)) = _
+  rw [if_pos h]; rfl
+
+theorem packLE32_big (k : Nat) (h : ¬ k < 4294967296) : packLE32 (k : Int) = .error .structError := by
+  show (if k < 4294967296 then pure (Spec.le32 k) else throw .structError : Py (List Nat)) = _
+  rw [if_neg h]; rfl
+
+theorem packLE32_neg (n : Int) (h : n < 0) : packLE32 n = .error .structError := by
+  cases n with
+  | ofNat k => exact absurd h (by simp [Int.ofNat_eq_natCast])
+  | negSucc k => rfl
+
 end Model
